@@ -252,6 +252,21 @@ theorem c04_if_untouched (ops : List MicroOp) (h : ∀ μ ∈ ops, μ ≠ .handl
     rw [runList_cons, ih (fun μ hμ => h μ (by simp [hμ]))]
     exact c04_if_frame x r m hx.1 (by rw [hx.2 r]; simp)
 
+/-- composed with C02: an instruction whose schedule performs no bus write leaves IF (as the interrupt
+    logic sees it) exactly as it was at its fetch boundary, for its whole documented duration -/
+theorem c04_instr_if_untouched (c : Cpu) (m : Flat) (i : Instr) (h : AtFetch c m)
+    (hi : instrAt c.regs.pc m = some i)
+    (hw : ∀ μ ∈ micro i, μ ≠ .handleInterrupt ∧ ∀ r, writeAddr μ r = none) :
+    (cycles specTables (cyclesOf i ((condOf i).all fun cc => cc.holds (abs c.regs m))) c m).2.ifl = m.ifl := by
+  obtain ⟨_, _, _, _, _, _, hbus⟩ := C02.c02_cycles c m i h hi
+  rw [hbus, c04_if_untouched _ (fun μ hμ => hw μ (List.mem_of_mem_take hμ))]
+
+example : ∀ μ ∈ micro (.inc (.r .b)), μ ≠ .handleInterrupt ∧ ∀ r, writeAddr μ r = none := by
+  intro μ hμ
+  simp [micro] at hμ
+  subst hμ
+  exact ⟨by decide, fun _ => rfl⟩
+
 /-! ### EI, DI, RETI -/
 
 private theorem instrAt_of_byte (pc : Word) (m : Flat) (b : Byte) (i : Instr) (hb : m.read pc = b)
@@ -277,7 +292,7 @@ theorem c04_ei_delay (c : Cpu) (m : Flat) (h : AtFetch c m) (hop : m.read c.regs
   have hi : instrAt c.regs.pc m = some .ei := instrAt_of_byte _ _ _ _ hop (by decide) (by decide)
   obtain ⟨_, _, hfin, hcr, hex, hregs, hbus⟩ := C02.c02_cycles c m .ei h hi
   have hd : decide (m.read c.regs.pc = 0xcb) = false := by rw [hop]; decide
-  simp only [Option.all, condOf, cyclesOf] at hfin hcr hex hregs hbus
+  simp only [cyclesOf] at hfin hcr hex hregs hbus
   rw [cycles_one] at hfin hcr hex hregs hbus
   rw [hd] at hregs hbus
   have hregs' : (cycle specTables c m).1.regs = { fetchRegs c.regs false with eiPending := true } := by
@@ -342,7 +357,7 @@ theorem c04_di_immediate (c : Cpu) (m : Flat) (h : AtFetch c m) (hop : m.read c.
   have hi : instrAt c.regs.pc m = some .di := instrAt_of_byte _ _ _ _ hop (by decide) (by decide)
   obtain ⟨_, _, hfin, hcr, hex, hregs, hbus⟩ := C02.c02_cycles c m .di h hi
   have hd : decide (m.read c.regs.pc = 0xcb) = false := by rw [hop]; decide
-  simp only [Option.all, condOf, cyclesOf] at hfin hcr hex hregs hbus
+  simp only [cyclesOf] at hfin hcr hex hregs hbus
   rw [cycles_one] at hfin hcr hex hregs hbus
   rw [hd] at hregs hbus
   have hregs' : (cycle specTables c m).1.regs = { fetchRegs c.regs false with eiPending := false } := by
@@ -368,7 +383,7 @@ theorem c04_reti_immediate (c : Cpu) (m : Flat) (h : AtFetch c m) (hop : m.read 
   have hi : instrAt c.regs.pc m = some .reti := instrAt_of_byte _ _ _ _ hop (by decide) (by decide)
   obtain ⟨_, hbefore, hfin, hcr, hex, hregs, hbus⟩ := C02.c02_cycles c m .reti h hi
   have hd : decide (m.read c.regs.pc = 0xcb) = false := by rw [hop]; decide
-  simp only [Option.all, condOf, cyclesOf] at hbefore hfin hcr hex hregs hbus
+  simp only [cyclesOf] at hbefore hfin hcr hex hregs hbus
   rw [hd] at hregs hbus
   refine ⟨hbefore, hfin, ?_, ?_, ?_⟩
   · rw [hbus]; simp [micro, MicroOp.run, incSP]
@@ -379,5 +394,62 @@ theorem c04_reti_immediate (c : Cpu) (m : Flat) (h : AtFetch c m) (hop : m.read 
 example : AtFetch Cpu.init (⟨fun _ => 0xd9, false, 0, 0⟩ : Flat) ∧
     (⟨fun _ => 0xd9, false, 0, 0⟩ : Flat).read Cpu.init.regs.pc = 0xd9 := by
   refine ⟨⟨?_, ?_, ?_, ?_, ?_, ?_⟩, ?_⟩ <;> decide
+
+/-! ### the same statements for the tables regenerated from dispatch.go (`c01_tables : Tables.gen = specTables`) -/
+
+theorem c04_dispatch_frame_gen (c : Cpu) (m : Flat) (hb : Boundary c) (hh : c.regs.halted = false)
+    (hime : m.ime = true) (k : Nat) (hk : pendingSource (pendingBits m) = some k)
+    (h1 : c.regs.sp - 1 ≠ 0xff0f) (h2 : c.regs.sp - 1 ≠ 0xffff)
+    (h3 : c.regs.sp - 2 ≠ 0xff0f) (h4 : c.regs.sp - 2 ≠ 0xffff) :
+    (cycles Tables.gen 5 c m).2 =
+      { mem := fun x => if x = c.regs.sp - 2 then lo8 c.regs.pc
+                        else if x = c.regs.sp - 1 then hi8 c.regs.pc else m.mem x,
+        ime := false, ie := m.ie, ifl := m.ifl &&& ~~~((1 : Byte) <<< k) } := by
+  rw [C01.c01_tables]; exact c04_dispatch_frame c m hb hh hime k hk h1 h2 h3 h4
+
+theorem c04_no_dispatch_gen (c : Cpu) (m : Flat) (hb : Boundary c) (hh : c.regs.halted = false)
+    (hs : c.regs.stopped = false) (hno : ¬(pendingBits m ≠ 0 ∧ m.ime = true)) :
+    next Tables.gen c m = fetch Tables.gen c c.regs m ∧
+    cycle Tables.gen c m =
+      stepSub (fetch Tables.gen c c.regs m).cpu (fetch Tables.gen c c.regs m).bus ∧
+    (fetch Tables.gen c c.regs m).bus = { m with ime := m.ime || c.regs.eiPending } ∧
+    (match instrAt c.regs.pc m with
+     | some i => (fetch Tables.gen c c.regs m).cpu.ops = micro i
+     | none => (fetch Tables.gen c c.regs m).cpu.ops = [.fatal]) := by
+  rw [C01.c01_tables]; exact c04_no_dispatch c m hb hh hs hno
+
+theorem c04_instr_if_untouched_gen (c : Cpu) (m : Flat) (i : Instr) (h : AtFetch c m)
+    (hi : instrAt c.regs.pc m = some i)
+    (hw : ∀ μ ∈ micro i, μ ≠ .handleInterrupt ∧ ∀ r, writeAddr μ r = none) :
+    (cycles Tables.gen (cyclesOf i ((condOf i).all fun cc => cc.holds (abs c.regs m))) c m).2.ifl = m.ifl := by
+  rw [C01.c01_tables]; exact c04_instr_if_untouched c m i h hi hw
+
+theorem c04_ei_delay_gen (c : Cpu) (m : Flat) (h : AtFetch c m) (hop : m.read c.regs.pc = 0xfb) :
+    (cycle Tables.gen c m).1.isFinished = true ∧
+    (cycle Tables.gen c m).1.regs = { fetchRegs c.regs false with eiPending := true } ∧
+    (cycle Tables.gen c m).2 = { m with ime := m.ime || c.regs.eiPending } ∧
+    (m.ime = false → c.regs.eiPending = false →
+      AtFetch (cycle Tables.gen c m).1 (cycle Tables.gen c m).2 ∧
+      (cycle Tables.gen c m).2.ime = false ∧
+      (fetch Tables.gen (cycle Tables.gen c m).1 (cycle Tables.gen c m).1.regs
+          (cycle Tables.gen c m).2).bus.ime = true ∧
+      (fetch Tables.gen (cycle Tables.gen c m).1 (cycle Tables.gen c m).1.regs
+          (cycle Tables.gen c m).2).cpu.regs.eiPending = false) := by
+  rw [C01.c01_tables]; exact c04_ei_delay c m h hop
+
+theorem c04_di_immediate_gen (c : Cpu) (m : Flat) (h : AtFetch c m) (hop : m.read c.regs.pc = 0xf3) :
+    (cycle Tables.gen c m).1.isFinished = true ∧
+    (cycle Tables.gen c m).2.ime = false ∧
+    (cycle Tables.gen c m).1.regs.eiPending = false ∧
+    AtFetch (cycle Tables.gen c m).1 (cycle Tables.gen c m).2 := by
+  rw [C01.c01_tables]; exact c04_di_immediate c m h hop
+
+theorem c04_reti_immediate_gen (c : Cpu) (m : Flat) (h : AtFetch c m) (hop : m.read c.regs.pc = 0xd9) :
+    (∀ k, 0 < k → k < 4 → (cycles Tables.gen k c m).1.isFinished = false) ∧
+    (cycles Tables.gen 4 c m).1.isFinished = true ∧
+    (cycles Tables.gen 4 c m).2.ime = true ∧
+    (cycles Tables.gen 4 c m).1.regs.pc = mk16 (m.read (c.regs.sp + 1)) (m.read c.regs.sp) ∧
+    (cycles Tables.gen 4 c m).1.regs.sp = c.regs.sp + 2 := by
+  rw [C01.c01_tables]; exact c04_reti_immediate c m h hop
 
 end Tetro.C04
